@@ -97,10 +97,16 @@ def main():
         others = [rng.choice(fams[e]) for e in (".it", ".xm", ".s3m", ".mod", ".med", ".stm", ".669", ".mtm", ".ult", ".far", ".imf", ".ptm", ".okt", ".amf", ".dbm", ".mdl", ".liq", ".psm", ".j2b", ".gdm") if e in fams]
         others.append(rng.choice(files))
         hlen = 9
-        for other in others:
-            hist = ["L2:" + other, "S", "P", "P", "P", "SP1", "P", "E", "R"]
+        for oi, other in enumerate(others):
+            # every other predecessor cycle runs at another sampling rate / channel count / interpolation than the context's own
+            hist = ["L2:" + other, "SA" if oi % 2 else "S", "P", "P", "P", "SP1", "P", "E", "R"]
             for c in ctxs:
                 progs.append(program([(c[0], c[1], c[2], c[3], hist + c[4] + ["E", "R"] + c[4])], [0] * (hlen + 2 * len(c[4]) + 2)))
+        # ... and the module's own earlier cycle at another output configuration: same module, so the same tempo meets another rate
+        for c in ctxs:
+            hist = ["L", "SA", "P", "P", "P", "SP1", "P", "E", "R"]
+            progs.append(program([(c[0], c[1], c[2], c[3], hist + c[4] + ["E", "R"] + c[4])], [0] * (hlen + 2 * len(c[4]) + 2)))
+        others = others + [None]
         r = V.run([drv], inp="".join(progs), env=env, timeout=3000)
         runs = parse(r.stdout)
         if r.returncode != 0:
@@ -124,7 +130,7 @@ def main():
             stats["history_runs"] += 1
             n = len(ctxs[ci][4]); a = hr[hlen:hlen + n]; b = hr[hlen + n + 2:]
             if a != solo[ci] or b != solo[ci]:
-                which = "after %s was loaded, played and released on it" % os.path.relpath(other, V.REPO) if a != solo[ci] else "in the second load/play cycle of the same module"
+                which = "after %s was loaded, played and released on it" % (os.path.relpath(other, V.REPO) if other else "the same module, at another rate / channel count / interpolation,") if a != solo[ci] else "in the second load/play cycle of the same module"
                 seq = a if a != solo[ci] else b
                 k = next((k for k in range(min(len(seq), len(solo[ci]))) if seq[k] != solo[ci][k]), 0)
                 bad = bad or "prior history: context %d %s differs from a fresh context at op %d (%s): %s vs %s" % (ci, which, k, ctxs[ci][4][k], seq[k] if k < len(seq) else None, solo[ci][k])
